@@ -274,7 +274,9 @@ def script_of(prog, rng=None):
     env = prog['env']
     lines = []
     for eq in prog['eqs']:
-        lines.append(f"{eq['lhs']} = {render(eq['rhs'], env, rng, 0, prog.get('loose', False))}")
+        off = eq.get('off', 0)
+        lhs = eq['lhs'] + (f'[{off}]' if off else '')   # the defined variable may carry a lag/lead of its own
+        lines.append(f"{lhs} = {render(eq['rhs'], env, rng, 0, prog.get('loose', False))}")
     return '\n'.join(lines)
 
 
@@ -398,7 +400,10 @@ class Gen:
             rhs = ['bin', 'mul', self.coef(), rhs] if r.random() < 0.7 else rhs
             if r.random() < 0.5:
                 rhs = ['bin', 'add', rhs, self.var(pools, i)]
-            eqs.append({'lhs': lhs, 'rhs': rhs})
+            eq = {'lhs': lhs, 'rhs': rhs}
+            if self.max_off and r.random() < 0.22:   # indexed left-hand side: `H[1] = …`, `R[-1] = …`
+                eq['off'] = r.choice([-2, -1, -1, 1, 1, 2])
+            eqs.append(eq)
         return finish_program(eqs, par, err, r)
 
 
